@@ -654,18 +654,20 @@ class Engine:
         if node.orelse:
             raise Unsupported("for/else", node)
         ordinal = self.loop_ids[id(node)]
+        self._last_dict_order = None
         n, elem = self.eval_iter(node.iter, st)
+        dorder = self._last_dict_order  # (captured now: loops in the body establish their own)
         n_s = z3.simplify(n)
         spec = self.c.loops.get(ordinal)
         if spec is None or spec.unroll is not None:
             if z3.is_int_value(n_s):
-                return self._unroll(node, st, n_s.as_long(), elem)
+                return self._unroll(node, st, n_s.as_long(), elem, dorder)
             if spec is None:
                 raise Unsupported(f"loop #{ordinal} has no invariant in the contract", node)
             raise Unsupported("bounded unrolling of symbolic-length loops not enabled", node)
         srcs = self._alias_sources(node, st)
         mutated = _assigned(node.body) | {v for v in _mutated_receivers(node.body)
-                                         if v in srcs and self._may_mutate(v, st.env[srcs[v]].ty.elem, node.body)}
+                                         if v in srcs and self._may_mutate(v, self._src_elem_ty(st.env[srcs[v]].ty), node.body)}
         mods = sorted(_assigned(node.body) | _target_names(node.target) | {q for v, q in srcs.items() if v in mutated})
         a = self.pre
 
@@ -677,8 +679,10 @@ class Engine:
                 return tuple(un(y) for y in x) if isinstance(x, tuple) else unwrap(x)
             return un(elem(i))
 
+        okey = (lambda i: unwrap(Val(dorder.ty.elem, z3.Select(dorder.ty.arr(dorder.t), i)))) if dorder is not None else None
+
         def inv(s: State, k):
-            return spec.inv(SYM, a, self._ns(s.env, _n=n, _k=k, _entry=entry, _at=at), k)
+            return spec.inv(SYM, a, self._ns(s.env, _n=n, _k=k, _entry=entry, _at=at, _okey=okey), k)
 
         # establishment
         for name, cl in inv(st, z3.IntVal(0)).items():
@@ -695,12 +699,12 @@ class Engine:
         if self.feasible(body_st):
             self.bind(node.target, elem(k), body_st, node)
             for v, q in srcs.items():
-                body_st.alias[v] = (q, k)
+                body_st.alias[v] = (q, self._alias_index(st.env[q], k, dorder))
             body_st.borrowed |= {t for t in _target_names(node.target) if t not in srcs and t in body_st.env
                                  and _mutable_kind(body_st.env[t])}
             for s, flow in self.exec_block(node.body, body_st):
                 if flow in (None, "continue"):
-                    ns_end = self._ns(s.env, _n=n, _k=k, _entry=entry, _at=at)
+                    ns_end = self._ns(s.env, _n=n, _k=k, _entry=entry, _at=at, _okey=okey)
                     if spec.facts is not None:
                         for f_ in spec.facts(SYM, a, ns_end, k):
                             s.assume(f_)
@@ -721,6 +725,19 @@ class Engine:
             ex.pc.append(cl)
         results.append((ex, None))
         return results
+
+    @staticmethod
+    def _src_elem_ty(ty):
+        return ty.val if isinstance(ty, TDict) else ty.elem
+
+    def _alias_index(self, src: Val, k, o=None):
+        """Where the k-th item of the iterated container lives: position k of a sequence, the k-th key (in the
+        iteration order established by eval_iter) of a dict."""
+        if isinstance(src.ty, TDict):
+            if o is None:
+                raise Unsupported("alias into a dict without an established iteration order")
+            return z3.Select(o.ty.arr(o.t), k)
+        return k
 
     def _may_mutate(self, var: str, elem_ty, body: list[ast.stmt]) -> bool:
         """Does the loop body possibly mutate the object bound to `var`?  Attribute stores do; a method call does unless
@@ -749,6 +766,15 @@ class Engine:
                 v = st.env.get(it.id)
                 if v is not None and isinstance(v.ty, TSeq) and isinstance(v.ty.elem, (TRec, TDict, TSet, TSeq)):
                     out[tgt.id] = it.id
+            elif isinstance(it, ast.Call) and isinstance(it.func, ast.Attribute) and it.func.attr in ("values", "items") \
+                    and not it.args and isinstance(it.func.value, ast.Name):
+                # `for x in d.values()` / `for k, x in d.items()`: x IS the value stored under the k-th key of d
+                d = st.env.get(it.func.value.id)
+                vt = tgt if it.func.attr == "values" else (tgt.elts[1] if isinstance(tgt, (ast.Tuple, ast.List))
+                                                           and len(tgt.elts) == 2 else None)
+                if d is not None and isinstance(d.ty, TDict) and isinstance(d.ty.val, (TRec, TDict, TSet, TSeq)) \
+                        and isinstance(vt, ast.Name):
+                    out[vt.id] = it.func.value.id
             elif isinstance(it, ast.Call) and isinstance(it.func, ast.Name) and it.func.id == "zip" and \
                     isinstance(tgt, (ast.Tuple, ast.List)) and len(tgt.elts) == len(it.args):
                 for a_, t_ in zip(it.args, tgt.elts):
@@ -759,7 +785,7 @@ class Engine:
         walk(node.iter, node.target)
         return out
 
-    def _unroll(self, node, st, n: int, elem):
+    def _unroll(self, node, st, n: int, elem, dorder=None):
         live = [st]
         done = []
         srcs = self._alias_sources(node, st)
@@ -768,7 +794,7 @@ class Engine:
             for s in live:
                 self.bind(node.target, elem(z3.IntVal(i)), s, node)
                 for v, q in srcs.items():
-                    s.alias[v] = (q, z3.IntVal(i))
+                    s.alias[v] = (q, self._alias_index(st.env[q], z3.IntVal(i), dorder))
                 s.borrowed |= {t for t in _target_names(node.target) if t not in srcs and t in s.env
                                and _mutable_kind(s.env[t])}
                 for s2, flow in self.exec_block(node.body, s):
@@ -834,6 +860,7 @@ class Engine:
             d = self.eval(node.func.value, st)
             if isinstance(d.ty, TDict):
                 order = self.dict_order(d, st)
+                self._last_dict_order = order
                 kind = node.func.attr
                 ty = d.ty
 
@@ -948,7 +975,11 @@ class Engine:
                 if tgt.id in st.alias:  # the variable is element k of a sequence: the element is what changed
                     q, k = st.alias[tgt.id]
                     sq = st.env[q]
-                    st.env[q] = Val(sq.ty, sq.ty.mk(sq.ty.len(sq.t), z3.Store(sq.ty.arr(sq.t), k, v.t)), True)
+                    if isinstance(sq.ty, TDict):  # the value under an existing key changed: same keys, same size
+                        st.env[q] = Val(sq.ty, sq.ty.mk(sq.ty.dom(sq.t), z3.Store(sq.ty.vals(sq.t), k, v.t),
+                                                        sq.ty.size(sq.t)), True)
+                    else:
+                        st.env[q] = Val(sq.ty, sq.ty.mk(sq.ty.len(sq.t), z3.Store(sq.ty.arr(sq.t), k, v.t)), True)
                 elif tgt.id in st.borrowed:
                     raise Unsupported(f"mutation of {tgt.id}, which is another name of an existing object", node)
             else:
